@@ -153,16 +153,23 @@ Definition kind_oids (g : grammar) : list nat :=
 
 Definition positions (input : list N) : list nat := seq 0 (S (length input)).
 
-Definition orcs_agree_b (input : list N) (orc orc' : nat -> nat -> option nat) (o o' : nat) : bool :=
-  forallb (fun p => opt_nat_eqb (orc' o' p) (orc o p)) (positions input).
+(* the answers of one oracle in a harness table, in table order: (position, length) *)
+Notation table := (list ((nat * nat) * nat)) (only parsing).
+Definition orc_row (tbl : table) (o : nat) : list (nat * nat) :=
+  flat_map (fun e => if Nat.eqb (fst (fst e)) o then [(snd (fst e), snd e)] else []) tbl.
+(* the answers of a modelled terminal at the positions of the text, ascending *)
+Definition expected_row (f : nat -> option nat) (input : list N) : list (nat * nat) :=
+  flat_map (fun p => match f p with Some l => [(p, l)] | None => [] end) (positions input).
+Definition row_eqb (a b : list (nat * nat)) : bool :=
+  forall2b (fun x y => (Nat.eqb (fst x) (fst y) && Nat.eqb (snd x) (snd y))%bool) a b.
 
-(* C20: hypotheses of C20_terminal_congruence / C20_invariant for one pair of texts *)
-Definition c20_hyp_b (lower : N -> N) (g : grammar) (cfg : config)
-           (orc orc' : nat -> nat -> option nat) (s s' : list N) : bool :=
+(* C20: hypotheses of C20_terminal_congruence / C20_invariant for one pair of texts
+   (oracle tables of the original and of the variant) *)
+Definition c20_hyp_b (lower : N -> N) (g : grammar) (cfg : config) (tbl tbl' : table) (s s' : list N) : bool :=
   (all_str_icase g &&
    forall2b (char_okb (ws_universe g cfg)) s s' &&
    forall2b (fun a b => N.eqb (lower a) (lower b)) s s' &&
-   forallb (fun o => orcs_agree_b s orc orc' o o) (kind_oids g))%bool.
+   forallb (fun o => row_eqb (orc_row tbl o) (orc_row tbl' o)) (kind_oids g))%bool.
 
 (* C21: the pair (plain table, autokwd table) for one text *)
 Section KwCheck.
@@ -170,7 +177,7 @@ Variable wordc : N -> bool.
 Variable digitc : N -> bool.
 Variable lower : N -> N.
 Variable input : list N.
-Variables orc orc' : nat -> nat -> option nat.
+Variables tbl tbl' : table.
 
 Definition kw_pair_ok (k k' : kind) : bool :=
   match k, k' with
@@ -179,16 +186,15 @@ Definition kw_pair_ok (k k' : kind) : bool :=
     (str_eqb t t' &&
      match oid, oid' with
      | None, None => true
-     | Some o, Some o' => orcs_agree_b input orc orc' o o'
+     | Some o, Some o' => row_eqb (orc_row tbl o) (orc_row tbl' o')
      | _, _ => false
      end)%bool
-  | KRegex o, KRegex o' => orcs_agree_b input orc orc' o o'
+  | KRegex o, KRegex o' => row_eqb (orc_row tbl o) (orc_row tbl' o')
   | KStr t oid, KRegex o' =>
     (kw_like wordc digitc t &&
-     forallb (fun p => opt_nat_eqb (orc' o' p) (kw_match wordc lower (oid_icase oid) t input p))
-             (positions input) &&
+     row_eqb (orc_row tbl' o') (expected_row (kw_match wordc lower (oid_icase oid) t input) input) &&
      match oid with
-     | Some o => forallb (fun p => opt_nat_eqb (orc o p) (str_match lower true t input p)) (positions input)
+     | Some o => row_eqb (orc_row tbl o) (expected_row (str_match lower true t input) input)
      | None => true
      end)%bool
   | _, _ => false
